@@ -467,6 +467,10 @@ SessionKeys::SessionKeys(const RSNHandshake& hs, const pmk_type& pmk)
 
 SNAP* SessionKeys::ccmp_decrypt_unicast(const Dot11Data& dot11, RawPDU& raw) const {
     RawPDU::payload_type& pload = raw.payload();
+    // CCMP header (8 bytes) + MIC (8 bytes), anything shorter can't be decrypted
+    if (pload.size() < 16) {
+        return 0;
+    }
     uint8_t MIC[16] = {0};
     uint8_t PN[6] = {
         pload[7],
